@@ -1,16 +1,20 @@
 package attacksim
 
 import (
+	"bytes"
 	"fmt"
 	"math"
+	"net/http/httptest"
 	"sort"
 	"strconv"
 	"strings"
+	"sync/atomic"
 	"testing"
 	"time"
 
 	"github.com/prometheus/client_golang/prometheus"
 	dto "github.com/prometheus/client_model/go"
+	"github.com/prometheus/common/expfmt"
 
 	"github.com/tsenart/vegeta/v12/internal/simrt"
 	vegeta "github.com/tsenart/vegeta/v12/lib"
@@ -20,9 +24,25 @@ import (
 // C20: observers and scrapers around the real prom.Metrics.
 
 const (
-	kObsIdle = simrt.KUser + 48 + iota // observer waiting: A = index of the result it will observe next (-1: finished)
-	kScrape                            // scraper waiting / reporting
+	kObsIdle    = simrt.KUser + 48 + iota // observer waiting: A = index of the result it will observe next (-1: finished)
+	kScrape                               // scraper waiting / reporting
+	kGate                                 // a collection held inside the harness collector
+	kScrapeDone                           // A: which scrape, B: status, Blob: the body served
 )
+
+// gateCollector is registered next to vegeta's collectors; while armed, its Collect parks.
+type gateCollector struct {
+	desc  *prometheus.Desc
+	armed atomic.Bool
+}
+
+func (g *gateCollector) Describe(ch chan<- *prometheus.Desc) { ch <- g.desc }
+func (g *gateCollector) Collect(ch chan<- prometheus.Metric) {
+	if g.armed.Load() {
+		simrt.Park(kGate, 0, 0, 0, 0, nil)
+	}
+	ch <- prometheus.MustNewConstMetric(g.desc, prometheus.GaugeValue, 1)
+}
 
 func init() {
 	scenarios["prom-C20"] = func(t *testing.T, cfg *simrt.Config) simrt.RunFn {
@@ -216,6 +236,7 @@ func runProm(tt *testing.T, tape *simrt.Tape, keep bool) (out simrt.Outcome) {
 		w.Log.Addf("observers=%d results=%d labelsets=%d arms=%v metrics=%d", nobs, total, len(ref), arms, len(pms))
 		sample = map[string]any{"observers": nobs, "results": total, "label_sets": len(ref), "armed_breakpoints": len(arms)}
 		reuse := tape.Prob(1, 2)
+		h := prom.NewHandler(reg, w.Start) // (instrumented code: built before breakpoints go live, it runs on the controller's goroutine)
 		w.Activate()
 		per := make([][]*vegeta.Result, nobs)
 		for i, r := range results {
@@ -301,6 +322,9 @@ func runProm(tt *testing.T, tape *simrt.Tape, keep bool) (out simrt.Outcome) {
 			}
 			seen := map[string]bool{}
 			for _, mf := range mfs {
+				if !strings.HasPrefix(mf.GetName(), "request_") {
+					continue // the handler's own error counters, the harness's gate
+				}
 				for _, m := range mf.GetMetric() {
 					l := labelsOf(m)
 					k := promKey{l["method"], l["url"], l["status"]}
@@ -373,6 +397,78 @@ func runProm(tt *testing.T, tape *simrt.Tape, keep bool) (out simrt.Outcome) {
 					if !seen["f"+id+m] {
 						fail("C20.fail-count", "%s message=%q is not exported although %v observed results carry that error", id, m, e.fails[m])
 					}
+				}
+			}
+		}
+		// ---- the scrape as the attack command serves it: prom.NewHandler, two scrapes overlapping ----
+		// Scrape A is held inside the collection (a collector of the harness, registered next to vegeta's, parks in its
+		// Collect), one more result is observed, scrape B starts, both are let go. B began after that observation, so
+		// what it returns must include it.
+		if viol == nil && tape.Prob(1, 2) {
+			stats["probe.overlapping-scrapes-through-the-handler"]++
+			gate := &gateCollector{desc: prometheus.NewDesc("sim_gate", "held by the simulator", nil, nil)}
+			reg.MustRegister(gate)
+			scrape := func(idx int64) {
+				rec := httptest.NewRecorder()
+				h.ServeHTTP(rec, httptest.NewRequest("GET", "/metrics", nil))
+				simrt.Park(kScrapeDone, 0, idx, int64(rec.Code), 0, rec.Body.Bytes())
+			}
+			gate.armed.Store(true)
+			go scrape(0)
+			held := w.Settle()
+			extra := &vegeta.Result{Method: "GET", URL: "http://late.test/", Code: 200, BytesIn: 4242, BytesOut: 17, Latency: 3 * time.Millisecond}
+			// (on a goroutine of its own: instrumented code must not park the controller)
+			go func() {
+				pms[0].Observe(extra)
+				simrt.Park(kScrapeDone, 0, 2, 0, 0, nil)
+			}()
+			for observed := false; !observed; {
+				w.Settle()
+				for _, ar := range append([]*simrt.Arrival(nil), w.Pending...) {
+					switch {
+					case ar.Kind == kScrapeDone && ar.A == 2:
+						observed = true
+						w.Release(ar, 0, nil)
+					case ar.Kind == simrt.KBP || ar.Kind == simrt.KLockWait || ar.Kind == simrt.KSelect:
+						w.Release(ar, 0, nil)
+					}
+				}
+			}
+			go scrape(1)
+			held = append(held, w.Settle()...)
+			w.Log.Addf("overlapping scrapes: %d collections held", len(held))
+			gate.armed.Store(false)
+			bodies := map[int64][]byte{}
+			for round := 0; round < 1000 && len(bodies) < 2; round++ {
+				for _, ar := range append([]*simrt.Arrival(nil), w.Pending...) {
+					switch ar.Kind {
+					case kGate, simrt.KBP, simrt.KLockWait, simrt.KSelect:
+						w.Release(ar, 0, nil)
+					case kScrapeDone:
+						bodies[ar.A] = append([]byte(nil), ar.Blob...)
+						w.Release(ar, 0, nil)
+					}
+				}
+				w.Settle()
+			}
+			if b, ok := bodies[1]; !ok {
+				fail("C20.handler-scrape", "a scrape through the handler did not return")
+			} else {
+				var p expfmt.TextParser
+				mfs, err := p.TextToMetricFamilies(bytes.NewReader(b))
+				if err != nil {
+					fail("C20.handler-scrape", "the handler's output does not parse: %v", err)
+				}
+				got := -1.0
+				if mf := mfs["request_bytes_in"]; mf != nil {
+					for _, m := range mf.GetMetric() {
+						if l := labelsOf(m); l["url"] == "http://late.test/" {
+							got = m.GetCounter().GetValue()
+						}
+					}
+				}
+				if got != 4242 && viol == nil {
+					fail("C20.handler-stale-scrape", "a scrape that began after a result (bytes_in 4242) had been observed, while another scrape was in flight, exports request_bytes_in = %v for it (-1: no such series)", got)
 				}
 			}
 		}
